@@ -28,6 +28,9 @@ Static rules (DESIGN.md §C06, engine sa/tabchain.py):
               (atom_symbol vs atom_pure_symbol); a once-per-key block (`if k not in D:`) reads only tables of
               that key kind; tables returned by gen_atomic_grids_cider are looked up with the producer's key
               function in AtomicGridsIndexer.from_tabs
+ key-domain-stale  in a loop over atoms, a variable advanced only inside a once-per-key block (`if key not in D:`:
+              running array, running total, per-key temporary) is not read elsewhere in the loop body; a per-atom offset
+              must be read back from a table indexed by the key
  translation  In every function of conv_interpolation.c / fast_sdmx.c that receives both grid coordinates and
               atom coordinates, each read of a coordinate is an operand of a subtraction whose other
               operand is the same Cartesian component of the other kind (or of the same kind), or a pure
@@ -1075,6 +1078,8 @@ def _analyse_own(chk):
 
 def analyse(chk):
     _analyse_own(chk)
+    chk.guard(lambda c_: core.include_findings(c_, 'C18', files=['ciderpress/dft/sph_harm_coeff.py', 'ciderpress/pyscf/sdmx.py', 'ciderpress/pyscf/sdmx_slow.py', 'ciderpress/dft/lcao_interpolation.py', 'ciderpress/dft/grids_indexer.py'], rules=['noncontig'],
+                                               why='a strided view of the Gaunt / harmonic tables handed to C as a bare pointer makes the l=1 terms read the wrong rows'))
     chk.guard(lambda c_: core.include_findings(c_, 'C10', files=['ciderpress/lib/mod_cider/sph_harm.c', 'ciderpress/lib/mod_cider/conv_interpolation.c', 'ciderpress/lib/mod_cider/fast_sdmx.c'], rules=None,
                                                why='schedule-dependent harmonics/kernels break every invariance'))
 
@@ -1141,9 +1146,40 @@ def mutants(tree):
         Mutant("grid tables filled per element", "ciderpress/pyscf/gen_cider_grid.py", "        symb = mol.atom_symbol(ia)\n",
                "        symb = mol.atom_pure_symbol(ia)\n", expect="key-domain"),
         Mutant("ylm tables shared per element", GI, fn=_share_ylm, expect="key-domain"),
+        Mutant("deduplicated ylm blocks, offset from the running total", GI, fn=_dedup_stale, expect="key-domain-stale"),
+        Mutant("deduplicated ylm blocks, per-key temporary reused", GI, fn=_dedup_temp, expect="key-domain-stale"),
         Mutant("SDMXylm_loop: atom y taken from z", F[C_SDMX], "gridy[g] - atom_coords[3 * ia + 1];", "gridy[g] - atom_coords[3 * ia + 2];",
                expect="translation"),
     ]
+
+
+_YLM_OLD = ("            full_ylm_loc = np.append(\n                full_ylm_loc, ylm_loc_tab[symb] + full_ylm.shape[0]\n            )\n"
+            "            full_ylm = np.append(full_ylm, ylm_tab[symb], axis=0)\n")
+
+
+def _dedup_stale(text):
+    if _YLM_OLD not in text:
+        return None
+    new = ("            if symb not in ylm_done:\n"
+           "                full_ylm = np.append(full_ylm, ylm_tab[symb], axis=0)\n"
+           "                ylm_done.add(symb)\n"
+           "            full_ylm_loc = np.append(\n"
+           "                full_ylm_loc, ylm_loc_tab[symb] + full_ylm.shape[0] - ylm_tab[symb].shape[0]\n"
+           "            )\n")
+    return text.replace(_YLM_OLD, new, 1).replace("        full_ylm = np.empty((0, nlm), dtype=np.float64)\n",
+                                                  "        full_ylm = np.empty((0, nlm), dtype=np.float64)\n        ylm_done = set()\n", 1)
+
+
+def _dedup_temp(text):
+    if _YLM_OLD not in text:
+        return None
+    new = ("            if symb not in ylm_done:\n"
+           "                ystart = full_ylm.shape[0]\n"
+           "                full_ylm = np.append(full_ylm, ylm_tab[symb], axis=0)\n"
+           "                ylm_done.add(symb)\n"
+           "            full_ylm_loc = np.append(full_ylm_loc, ylm_loc_tab[symb] + ystart)\n")
+    return text.replace(_YLM_OLD, new, 1).replace("        full_ylm = np.empty((0, nlm), dtype=np.float64)\n",
+                                                  "        full_ylm = np.empty((0, nlm), dtype=np.float64)\n        ylm_done = set()\n", 1)
 
 
 def _share_ylm(text):
